@@ -27,7 +27,7 @@ CHECKS["C14"] = dict(
          "it to (region, changed header fields, changed head-table entries and what they point at), and judged by TLC with JlsFile!WriteVerdict "
          "(JlsWriteOnceTrace.tla): appends only grow the file; in-place writes touch only item_next/item_prev/crc of a chunk header, or a track-head "
          "entry once from 0 to a complete DATA/INDEX chunk of that track, signal and level, or the file header at open/close; no truncation. "
-         "JlsFileGen.tla model-checks that this discipline keeps content immutable.",
+         "JlsFileGen.tla model-checks that this discipline keeps content immutable. Besides the randomly generated programs, the writer histories come from the state graph of JlsShapes.tla (every combination of present / absent tracks and amount classes; TLC dumps the graph, tools/shapes.py turns paths that take the (shape, call) pairs into programs for the real library).",
     design_ref="DESIGN.md section 6 C14, section 12",
     note="Trusted: TLC; tools/lifter.py (decoder written from format.h with its own CRC-32C); harness/iowrap.c (records, never alters I/O); "
          "contiguous consecutive in-place writes are coalesced (payload+footer of a head-table rewrite is one logical write).",
@@ -62,7 +62,7 @@ CHECKS["C13"] = dict(
          "data/annotation/UTC/omit calls for undefined signals, absent/empty/UTF-8/long strings (to > 2 MiB, around the 1 MiB string block), user data "
          "0 B..3 MB with 16-bit tags and all storage types; judged: return codes (accepted iff the contract says so), 'no backend I/O during a refused call', "
          "jls_rd_sources / jls_rd_signals / jls_rd_signal (normalised parameters computed by SigDef.tla) / jls_rd_user_data incl. stopped iteration. "
-         "JlsApiDefs.tla model-checks the identity rules of the contract for all short call orders.",
+         "JlsApiDefs.tla model-checks the identity rules of the contract for all short call orders. Besides the randomly generated programs, the writer histories come from the state graph of JlsShapes.tla (every combination of present / absent tracks and amount classes; TLC dumps the graph, tools/shapes.py turns paths that take the (shape, call) pairs into programs for the real library).",
     design_ref="DESIGN.md section 6 C13, section 12",
     note="Trusted: as C01; strings/payloads are compared through 64-bit BLAKE2 tokens; a definition whose strings exceed the 1 MiB string block may be refused.",
     technique="TLC trace validation of API executions against a TLA+ contract; TLC model checking of the contract's identity rules",
@@ -76,7 +76,7 @@ CHECKS["C11"] = dict(
          "space is then written with the real library (decimation 2/3, FSR signal and signal 0) and read back from six targets, together with seeded "
          "larger programs (0..1100+ annotations, decimation 2,3,7,10,100/default, equal-timestamp runs across index chunks, offset ids, all storage "
          "types, payloads > 1 MiB, stopped iteration); " + _API.split('; TLC replays')[0].split('Programs are generated (seeded), ')[0] +
-         "TLC judges every jls_rd_annotations outcome with JlsApi!RdAnnoVerdict (tokens over all annotation fields and bytes).",
+         "TLC judges every jls_rd_annotations outcome with JlsApi!RdAnnoVerdict (tokens over all annotation fields and bytes). Besides the randomly generated programs, the writer histories come from the state graph of JlsShapes.tla (every combination of present / absent tracks and amount classes; TLC dumps the graph, tools/shapes.py turns paths that take the (shape, call) pairs into programs for the real library).",
     design_ref="DESIGN.md section 6 C11, section 12",
     note="Trusted: as C01. The design model found the equal-timestamp seek defect (fixed, C11-F1).",
     technique="TLC model checking of the index/seek design + replay of its whole state space into the C code + TLC trace validation against the contract",
@@ -133,7 +133,7 @@ CHECKS["C05"] = dict(
          "heads = first DATA/INDEX chunk per level; every INDEX immediately followed by its SUMMARY with the same timestamp; every FSR / annotation / UTC "
          "index entry leading to the chunk of the expected kind, signal, level and timestamp with the level's stride) and JlsFormat!Decodes (definitions as "
          "normalised by SigDef.tla, stored samples by candidate runs, annotations, UTC, user data = the content submitted through the API). "
-         "JlsLinks.tla model-checks the writer's cached-tail list maintenance and head-table updates against the same Links/Heads predicates. Tier B: JlsWriter.tla (FSR writer: which DATA / INDEX / SUMMARY chunk is emitted when; plus the reader's index descent) and JlsTsWriter.tla (annotation / UTC tracks) are model-checked (tiling, index completeness, nothing pending after close, every sample found by the descent) and every produced file's chunk sequence is compared with them (JlsWriterTrace.tla; deviation = MODEL-DRIFT).",
+         "JlsLinks.tla model-checks the writer's cached-tail list maintenance and head-table updates against the same Links/Heads predicates. Tier B: JlsWriter.tla (FSR writer: which DATA / INDEX / SUMMARY chunk is emitted when; plus the reader's index descent) and JlsTsWriter.tla (annotation / UTC tracks) are model-checked (tiling, index completeness, nothing pending after close, every sample found by the descent) and every produced file's chunk sequence is compared with them (JlsWriterTrace.tla; deviation = MODEL-DRIFT). Besides the randomly generated programs, the writer histories come from the state graph of JlsShapes.tla (every combination of present / absent tracks and amount classes; TLC dumps the graph, tools/shapes.py turns paths that take the (shape, call) pairs into programs for the real library).",
     design_ref="DESIGN.md section 6 C05, section 12",
     note="Trusted: TLC, tools/lifter.py, harness/crc_ref.c. SUMMARY values are judged by C02/C15 (here: structure). Repaired files are judged with the same "
          "predicates by the C03/C19 check.",
@@ -146,7 +146,7 @@ CHECKS["C17"] = dict(
          "statistics, payloads > 1 MiB) are copied with the real jls_copy. The destination is decoded from its bytes and must be a well-formed, properly "
          "closed file that decodes to the submitted content (JlsFormat!WellFormed / Decodes), and it is read through the API with the same request list "
          "as the source - definitions, lengths, windows, statistics, annotations, UTC, user data - all judged by TLC against the same abstract content "
-         "(JlsApi contract), which is what 'reads back the same as from the original' means when both sides are held to one reference. User data sized at the edge of the copy buffer (2^20-4 .. 2^20+1, 2^21-2, 2^21) are included.",
+         "(JlsApi contract), which is what 'reads back the same as from the original' means when both sides are held to one reference. User data sized at the edge of the copy buffer (2^20-4 .. 2^20+1, 2^21-2, 2^21) are included. Besides the randomly generated programs, the writer histories come from the state graph of JlsShapes.tla (every combination of present / absent tracks and amount classes; TLC dumps the graph, tools/shapes.py turns paths that take the (shape, call) pairs into programs for the real library).",
     design_ref="DESIGN.md section 6 C17, section 12",
     note="Trusted: as C01/C05. Known finding C17-K1 (blocks that exist only as summaries become gaps in the copy) is probed and reported. "
          "Unclosed originals are exercised by the crash-image corpus of the C03 check.",
@@ -206,7 +206,7 @@ CHECKS["C03"] = dict(
          "exceeds or differs from the submitted prefix; annotations/UTC/user data are in-order selections of unaltered submitted items; for a stop between "
          "two complete writes with all definitions on disk the open succeeds, every call works and no more than the block in flight is lost (vs. the "
          "samples in complete DATA chunks of the image). JlsLinks.tla model-checks, per backend write, that after ANY prefix of writes every pointer on disk "
-         "is 0 or leads to a complete chunk. For signals without omitted blocks the statistics the reader reports on each image (single-window and entry-aligned requests) are compared with the samples it returned.",
+         "is 0 or leads to a complete chunk. For signals without omitted blocks the statistics the reader reports on each image (single-window and entry-aligned requests) are compared with the samples it returned. Besides the randomly generated programs, the writer histories come from the state graph of JlsShapes.tla (every combination of present / absent tracks and amount classes; TLC dumps the graph, tools/shapes.py turns paths that take the (shape, call) pairs into programs for the real library).",
     design_ref="DESIGN.md section 6 C03, section 12",
     note="Trusted: as C01 plus the crash model (file = byte prefix of the write stream). Known findings C03-K1 (repair skips blocks that exist only as "
          "summaries) and C19-K1 (torn in-place header stays corrupt) are classified structurally and reported.",
@@ -217,7 +217,7 @@ CHECKS["C19"] = dict(
     text=_CRASH + "C19: (a) every properly closed file of the corpus is opened and read (definitions, windows, annotations, UTC, user data) and TLC requires it to be "
          "byte-identical afterwards with no backend write at all; (b) every crash image that opens is opened a second and a third time: TLC requires no write, "
          "no change, identical observations, and - when the first open repaired the image - a well-formed closed file (header length = size, forward walk to "
-         "END, all CRCs).",
+         "END, all CRCs). Besides the randomly generated programs, the writer histories come from the state graph of JlsShapes.tla (every combination of present / absent tracks and amount classes; TLC dumps the graph, tools/shapes.py turns paths that take the (shape, call) pairs into programs for the real library).",
     design_ref="DESIGN.md section 6 C19, section 12",
     note="Trusted: as C03. Known finding C19-K1: a stop inside an in-place 32-byte header rewrite leaves a corrupt header that repair does not mend.",
     technique="TLC trace validation of repeated opens of closed files and crash images against a TLA+ convergence contract",
